@@ -14,8 +14,8 @@ cleanup() { git -C /repo worktree remove --force "$WT" >/dev/null 2>&1; [ "${KEE
 trap cleanup EXIT
 if [ "$PATCH" != "none" ]; then git -C "$WT" apply "$PATCH" || { echo "$NAME patch-does-not-apply"; exit 1; }; fi
 cp /verif/known_findings.json "$ROOT/"
-sed "s#=> /repo#=> $WT#" /verif/harness/go.mod > "$BASE/go.mod"; cp /verif/harness/go.sum "$BASE/go.sum"
-cd /verif/harness
+sed "s#=> /repo#=> $WT#" "${HARNESS:-/verif/harness}/go.mod" > "$BASE/go.mod"; cp "${HARNESS:-/verif/harness}/go.sum" "$BASE/go.sum"
+cd "${HARNESS:-/verif/harness}"
 if ! go build -modfile="$BASE/go.mod" -tags verif -o "$ROOT/bin/verifmon" ./cmd/verifmon 2> "$ROOT/.work/build.log"; then
   echo "$NAME build-failed: $(head -3 $ROOT/.work/build.log | tr '\n' ' ')"; exit 1; fi
 for P in "$@"; do
